@@ -117,7 +117,7 @@ def stack_neutral_body(rng, cur=3):
     if k < 0.3:
         return []
     if k < 0.6:
-        return print_chars([rng.choice([0x41, 0x7b, 0x7d, 0x30, 0x0a, 0xac00, 0x25])], cur, rng.choice([1, 1, 2]))
+        return print_chars([rng.choice([0x41, 0x7b, 0x7d, 0x30, 0x0a, 0xac00, 0x25, 0x20, 0xa0, 0x3000, 0x20])], cur, rng.choice([1, 1, 2]))
     if k < 0.8:
         return [(0, 1, rng.randint(1, 5), None), (1, 1, rng.choice([4, 5, 6]), None)]
     return [(0, 1, 2, None), (0, 1, 3, None), (3, 2, rng.choice([1, 4]), None), (1, 2, 5, None)]
@@ -212,12 +212,74 @@ def tmpl_two_returns(rng):
     two ♡ returns with no label jump in between (the generator uses the model only to SELECT workloads)."""
     from .refinterp import Machine, Limits
     prog = None
-    for _ in range(80):
+    for _ in range(300):
         prog = _two_returns_once(rng)
         m = Machine(prog, '', Limits(steps=400))
         o, e, end = m.run()
         if not end.startswith('notadmitted') and m.st['heart_after_heart']:
             break
+    return prog
+
+
+def tmpl_forward_jump(rng):
+    """Data-driven control flow over two label keys: an earlier command's conditional heart is first not
+    taken, a later command registers the label, a backward jump returns, then the earlier command jumps
+    FORWARD to the already registered label."""
+    from .refinterp import Machine, Limits
+    prog = None
+    for _ in range(400):
+        data = [rng.choice([0, 0, 1, 5, 5, 70, 77, 84, 90]) for _ in range(rng.randint(8, 18))]
+        prog = [(0, 1, v, None) for v in data]
+        labs = rng.sample([2, 5, 7, 9], 2)
+        forms = []
+        for lab in labs:
+            forms += [lab, ('?', lab, None), ('?', None, lab), ('!', lab, None), ('?', lab, ('?', None, lab))]
+        forms += [13, ('?', 13, None)]
+        for _ in range(rng.randint(4, 8)):
+            prog.append((1, 1, rng.choice([1, 1, 2]), rng.choice(forms)))
+        m = Machine(prog, '', Limits(steps=400))
+        o, e, end = m.run()
+        if not end.startswith('notadmitted') and m.st['forward_jumps']:
+            break
+    return prog
+
+
+def tmpl_stack0_data(rng):
+    """Stack 0 used as an ordinary data stack before (and while) it doubles as the input buffer: values are
+    pushed onto it, it is selected, and then printed from / popped by multi-operand commands / compared in
+    areas while it is still non-empty, finally running dry so that the next pops read input lines."""
+    if rng.random() < 0.35:
+        # few own values on stack 0, then ONE multi-operand command that needs more than that (it crosses from
+        # own values into the input line) and whose area keeps popping (possibly past the end of the line)
+        own = rng.randint(0, 2)
+        prog = [(5, 1, 0, None)] + [(0, 1, rng.choice([1, 1, 2, 33]), None) for _ in range(own)]
+        prog.append((rng.choice([1, 1, 2, 3, 4]), own + rng.randint(1, 2), rng.choice([1, 1, 3, 0]),
+                     rand_area(rng, [4, 13], p_none=0.15, p_more_q=0.7, p_slot_none=0.6)))
+        prog += [(1, 1, 1, None)] * rng.randint(2, 7)
+        if rng.random() < 0.4:
+            prog += [(0, 1, 1, None), (1, rng.choice([2, 3]), 1, rand_area(rng, [4, 13], p_none=0.3))]
+        return prog
+    prog = []
+    for _ in range(rng.randint(1, 4)):
+        prog += push_value(rng.choice([9, 33, 65, 81, 90, 1, 0])) + [(rng.choice([1, 1, 2]), 1, 0, None)]     # value -> stack 0
+    if rng.random() < 0.5:
+        prog += push_value(rng.choice([66, 81, 2]))
+    prog += [(5, rng.choice([1, 1, 2]), 0, rng.choice([None, None, ('?', None, 4)]))]                          # select stack 0 (copies on top)
+    hearts = [4, 13]
+    for _ in range(rng.randint(2, 7)):
+        k = rng.random()
+        if k < 0.3:
+            prog.append((1, 1, rng.choice([1, 1, 2]), rand_area(rng, hearts, p_none=0.5)))                     # print from stack 0
+        elif k < 0.55:
+            prog.append((rng.choice([1, 3, 4, 2]), rng.choice([2, 2, 3]), rng.choice([0, 0, 1, 3]), rand_area(rng, hearts, p_none=0.6)))
+        elif k < 0.75:
+            prog.append((0, 1, rng.choice([0, 1, 9, 65, 81]), rand_area(rng, hearts, p_none=0.4)))              # push onto stack 0, compare
+        elif k < 0.9:
+            prog.append((5, 1, rng.choice([0, 3, 4]), rand_area(rng, hearts, p_none=0.6)))
+        else:
+            prog += push_value(81) + [(1, 1, 1, None)]
+    if rng.random() < 0.5:
+        prog += [(5, 1, 0, None), (1, rng.choice([1, 2, 3]), 1, None)]
     return prog
 
 
@@ -229,7 +291,7 @@ def tmpl_self_return(rng, with_read=None):
     prog = None
     if with_read is None:
         with_read = rng.random() < 0.5
-    for _ in range(120):
+    for _ in range(500):
         prog = _two_returns_once(rng, mixed=True)
         if with_read:
             prog = [(5, 1, 0, None), (5, 1, 3, None)] + prog
@@ -426,7 +488,7 @@ def tmpl_label_table(rng):
     (the compiled program must translate every label of the pre-executed prefix to the right block)."""
     from .refinterp import Machine, Limits
     prog = None
-    for _ in range(60):
+    for _ in range(200):
         nl = rng.randint(2, 4)
         keys = []
         while len(keys) < nl:
@@ -551,9 +613,12 @@ def epilogue(rng, prog):
 
 
 # ------------------------------------------------------------------------------------------ stdin
-STDINS = ['', 'ab\n', '12 34\nxyz', '가나\n\n😀z\n', 'x', '\n', '\n\n', 'a\r\nb\r\n', '7 8', '1111 1234', '3 5\n',
+STDINS = ['', 'ab\n', 'a\nxyz\n', 'AB\nCCCC\nD \n', 'q\nrs\ntuv\n', '12 34\nxyz', '가나\n\n😀z\n', 'x', '\n', '\n\n', 'a\r\nb\r\n', '7 8', '1111 1234', '3 5\n',
           '\x00\x01\n\x7f\x80', '퟿￿\U00010000\U0010ffff\n', 'line1\nline2\nline3\nline4\nline5\n',
           '{}"\\\n%s\n', '\u0085 x\x0cy\x1cz\n']
+
+
+MULTILINE = ['a\nxyz\n', 'AB\nCCCC\nD \n', 'q\nrs\ntuv\n', 'line1\nline2\nline3\nline4\nline5\n', '\n\nab\n', 'x\r\ny\r\nz', '가\n나다\n😀\n']
 
 
 def gen_stdin(rng):
@@ -589,6 +654,7 @@ TEMPLATES = {
     'stacky': lambda rng, ai: gen_stacky(rng),
     'subroutine': lambda rng, ai: tmpl_subroutine(rng),
     'two_returns': lambda rng, ai: tmpl_two_returns(rng),
+    'forward_jump': lambda rng, ai: tmpl_forward_jump(rng),
     'self_return': lambda rng, ai: tmpl_self_return(rng, with_read=False if not ai else None),
 }
 INPUT_TEMPLATES = {
@@ -596,13 +662,27 @@ INPUT_TEMPLATES = {
     'handover': lambda rng, ai: tmpl_handover(rng),
     'pending_return': lambda rng, ai: tmpl_pending_return(rng),
     'label_table': lambda rng, ai: tmpl_label_table(rng),
+    'stack0_data': lambda rng, ai: tmpl_stack0_data(rng),
 }
+
+
+def gen_tiny(rng, allow_input=True):
+    """Boundary sizes: programs of one or two commands (a single block, an area on the only command, ...)."""
+    hearts = [rng.choice([2, 5, 12]), 13]
+    prog = []
+    for _ in range(rng.choice([1, 1, 2])):
+        t = rng.randint(0, 5)
+        d = rng.choice([0, 1, 1, 2, 3, 3, 4]) if (allow_input or t == 0) else rng.choice([1, 2, 3, 3, 4])
+        prog.append((t, rng.choice([1, 1, 2, 3]), d, rand_area(rng, hearts, p_none=0.25, p_slot_none=0.3)))
+    return prog
 
 
 def gen_case(rng, allow_input=True, weights=None):
     """-> (source_name, prog). Mix of the four sources."""
     w = weights or {'random': 0.3, 'template': 0.35, 'mutant': 0.35}
     r = rng.random()
+    if rng.random() < 0.04:
+        return 'tiny', gen_tiny(rng, allow_input)
     if r < w['random']:
         name, prog = 'random', gen_random(rng, allow_input)
     elif r < w['random'] + w['template']:
